@@ -11,7 +11,9 @@ CFG = {'assumptions': ['f64 inputs cross the boundary as bit patterns and are de
                  'segment); the Euclidean length satisfies both but is rational only on axis-aligned / Pythagorean '
                  'segments'],
  'count': {'quick': 120000, 'thorough': 5000000},
- 'lean_files': ['GeoModel/Interp.lean', 'GeoModel/Ops/C15.lean', 'GeoProofs/Lemmas/C15.lean'],
+ 'lean_files': ['GeoModel/Interp.lean', 'GeoModel/Ops/C15.lean', 'GeoProofs/Lemmas/C15.lean',
+                'GeoProofs/Lemmas/C15PSimple.lean', 'GeoProofs/Lemmas/C15POn.lean',
+                'GeoProofs/Lemmas/C15PDensify.lean'],
  'rule': 'random Lines and LineStrings (0-6 vertices; axis-aligned / Pythagorean steps with rational lengths, '
          'grid and moderate-range float coordinates; repeated vertices, zero-length lines, back-tracking and '
          'self-touching paths) x ratios {0, 1, dyadic, negative, >1, exactly at a vertex, 1+-eps, +-1e6, -0.0, '
@@ -45,8 +47,10 @@ MANIFEST = {'note': 'Trusted: Lean 4.33 kernel (axioms propext, Classical.choice
          'hand-written model with the segment length as an abstract rational-valued function (hypotheses LenAx: '
          'non-negative, symmetric, zero exactly between equal points; LenLerp: homogeneous along a segment — '
          'both hold for the Euclidean length, which is rational only on axis-aligned / Pythagorean segments; a '
-         'taxicab instance shows the hypotheses are satisfiable). The LineString locate round trip is proved in '
-         '_partial form (0 < r <= 1, point at positive distance from every earlier segment); the deprecated '
+         'taxicab instance shows the hypotheses are satisfiable). The LineString locate round trip is proved for every simple line string of positive '
+         'length (SimpleLS: two segments share a point, in the sense of the Line: Intersects<Coord> kernel, only at '
+         'the junction between them) and every ratio; a pointwise form covers non-simple lines where the point is '
+         'at positive distance from every earlier segment; the deprecated '
          'LineString::line_interpolate_point returned None on repeated leading vertices / zero-length / '
          'single-coordinate line strings and was repaired by a fix: commit (known finding F11, fixed). f64 results '
          'are compared bit-exactly where the evaluation is provably unrounded and within a stated tolerance '
@@ -59,9 +63,17 @@ MANIFEST = {'note': 'Trusted: Lean 4.33 kernel (axioms propext, Classical.choice
          'contains the distance, with positive length (never divides by zero); the returned point is the unique '
          'point at that arc length; from_start(r) = from_end(1-r) as points for every r; Line ratio and distance '
          'forms coincide; the deprecated line_interpolate_point equals the ratio form; Line locate inverts '
-         'interpolate for every r; LineString locate inverts interpolate (partial: earlier segments at positive '
-         'distance); densify keeps the original vertices as a sublist and the ring ends, inserts exactly the lerp '
+         'interpolate for every r; LineString locate inverts interpolate for every simple line string of '
+         'positive length and every r (locate_interpolate_ls; SimpleLS implies the pointwise hypothesis '
+         'EarlierApart, including r exactly at a vertex; the hypothesis is sharp: for 0 < r <= 1 the round trip '
+         'holds exactly where the point has not been passed before, otherwise locate reports the earlier, '
+         'strictly smaller fraction); every interpolated point (ratio and distance forms, '
+         'from start and from end, Line and LineString, every r / d) lies on the line in the sense of the '
+         'Intersects<Coord> kernel; densify keeps the original vertices as a sublist and the ring ends, inserts exactly the lerp '
          'points k/n with n = ceil(d/max), none for d = 0 or d <= max, every piece has length d/n <= max with n '
-         'minimal, and the total length is unchanged. The real InterpolateLine / LineInterpolatePoint / '
+         'minimal, and the total length is unchanged; the same for Polygon, MultiPolygon, MultiLineString, Rect and '
+         'Triangle (rings closed as built by Polygon::new / to_polygon: the result rings are the densified '
+         'rings one for one, no piece longer than max including the closing edge, every ring length and the '
+         'perimeter unchanged, vertices kept in order; witness that an unclosed ring would break it). The real InterpolateLine / LineInterpolatePoint / '
          'LineLocatePoint / Densify code is run on the same inputs and compared with the exact model; the property '
          "clauses are evaluated on the implementation's outputs by an independent arc-length checker."}
